@@ -130,8 +130,8 @@ mod verif_c08_entries {
 
     // ------------------------------------------------------------------- readers
 
-    #[kani::ensures(|r: &u64| ob("C08.PageTableEntry_addr.bits_12_51_of_raw", *r == raw & ADDR_MASK)
-        && ob("C03.PageTableEntry_addr.valid", *r < (1u64 << 52)))]
+    #[kani::ensures(|r: &u64| ob("C08.PageTableEntry_addr.bits_12_51_of_raw", *r == raw & ADDR_MASK))]
+    #[kani::ensures(|r: &u64| ob("C03.PageTableEntry_addr.valid", *r < (1u64 << 52)))]
     fn w_addr(raw: u64) -> u64 {
         entry_of(raw).addr().as_u64()
     }
@@ -145,8 +145,8 @@ mod verif_c08_entries {
         kani::cover!(true, "c08_entry_addr_masks_raw: reachable");
     }
 
-    #[kani::ensures(|r: &u64| ob("C08.PageTableEntry_flags.domain_bits_of_raw", *r & DOMAIN == raw & DOMAIN)
-        && ob("C08.PageTableEntry_flags.only_extra_bit_is_bit12", *r & !DOMAIN == raw & BIT12))]
+    #[kani::ensures(|r: &u64| ob("C08.PageTableEntry_flags.domain_bits_of_raw", *r & DOMAIN == raw & DOMAIN))]
+    #[kani::ensures(|r: &u64| ob("C08.PageTableEntry_flags.only_extra_bit_is_bit12", *r & !DOMAIN == raw & BIT12))]
     fn w_flags(raw: u64) -> u64 {
         entry_of(raw).flags().bits()
     }
@@ -161,8 +161,8 @@ mod verif_c08_entries {
     }
 
     /// `Some(start address)` for `Ok(frame)`, `None` for `Err(FrameNotPresent)`.
-    #[kani::ensures(|r: &Option<u64>| ob("C08.PageTableEntry_frame.ok_iff_present", r.is_some() == (raw & 1 == 1))
-        && ob("C08.PageTableEntry_frame.frame_of_bits_12_51", r.is_none() || *r == Some(raw & ADDR_MASK)))]
+    #[kani::ensures(|r: &Option<u64>| ob("C08.PageTableEntry_frame.ok_iff_present", r.is_some() == (raw & 1 == 1)))]
+    #[kani::ensures(|r: &Option<u64>| ob("C08.PageTableEntry_frame.frame_of_bits_12_51", r.is_none() || *r == Some(raw & ADDR_MASK)))]
     fn w_frame(raw: u64) -> Option<u64> {
         match entry_of(raw).frame() {
             Ok(f) => Some(f.start_address().as_u64()),
@@ -259,8 +259,8 @@ mod verif_c08_entries {
     }
 
     #[kani::requires(valid_flag_bits(x))]
-    #[kani::ensures(|r: &u64| ob("C08.PageTableEntry_set_flags.keeps_address_bits", *r & ADDR_MASK == prior & ADDR_MASK)
-        && ob("C08.PageTableEntry_set_flags.sets_flag_bits_exactly", *r & !ADDR_MASK == x))]
+    #[kani::ensures(|r: &u64| ob("C08.PageTableEntry_set_flags.keeps_address_bits", *r & ADDR_MASK == prior & ADDR_MASK))]
+    #[kani::ensures(|r: &u64| ob("C08.PageTableEntry_set_flags.sets_flag_bits_exactly", *r & !ADDR_MASK == x))]
     fn w_set_flags(prior: u64, x: u64) -> u64 {
         let mut e = entry_of(prior);
         e.set_flags(PageTableFlags::from_bits_truncate(x));
